@@ -169,8 +169,15 @@ theorem export_ok {bb : Option Name} {w : World} (hw : Inv w) {a : Oid} {A : Obj
         · simp [exportClause, recOf, hA, hT, hsome, h2', h1]
         · simp [askedClause, recOf]
 
-theorem dest_ok {bb : Option Name} {w : World} (hw : Inv w) {a : Oid} {A : Obj} (hA : getO w.objs a = some A)
-    (t : Oid) : StepOK bb w.objs (doDest w t).1 (recOfR a (.dest t) (doDest w t)) := by
+theorem guard_or {A : Obj} (h : ¬ (A.oid ≠ masterOid ∧ A.euid = none)) : A.oid = masterOid ∨ A.euid ≠ none := by
+  by_cases hx : A.oid = masterOid
+  · exact Or.inl hx
+  · exact Or.inr (fun hy => h ⟨hx, hy⟩)
+
+theorem dest_ok {cfg : Cfg} {w : World} (hw : Inv w) {a : Oid} {A : Obj} (hA : getO w.objs a = some A)
+    (t : Oid) : StepOK cfg.bb w.objs (doDest cfg w A t).1 (recOfR a (.dest t) (doDest cfg w A t)) := by
+  have hAo := (getO_some hA).2
+  subst hAo
   unfold doDest recOfR
   cases hT : getO w.objs t with
   | none =>
@@ -179,12 +186,39 @@ theorem dest_ok {bb : Option Name} {w : World} (hw : Inv w) {a : Oid} {A : Obj} 
     · simp [exportClause, recOf]
     · simp [askedClause, recOf]
   | some T =>
+    have hTo := (getO_some hT).2
     by_cases hm : t = masterOid
     · simp only [hm, if_true]
-      apply stepOK_same hw w rfl
-      · exact noEuid_of_all (by simp [recOf]) rfl
-      · simp [exportClause, recOf]
-      · simp [askedClause, recOf]
+      by_cases hguard : A.oid ≠ masterOid ∧ A.euid = none
+      · rw [if_pos hguard]
+        apply stepOK_same hw w rfl
+        · exact noEuid_of_all (by simp [recOf]) rfl
+        · simp [exportClause, recOf]
+        · simp [askedClause, recOf]
+      · rw [if_neg hguard]
+        have hg' : (decide (A.oid = masterOid) || A.euid.isSome) = true := by
+          rcases guard_or hguard with hg | hg
+          · simp [hg]
+          · cases h : A.euid with
+            | none => exact absurd h hg
+            | some _ => simp
+        apply stepOK_of
+        · exact Inv_setO hw { T with uid := some cfg.root, euid := some cfg.root } (by simp) _ rfl
+        · intro e hmem
+          rcases frame_setO hw.wf hmem with h | h
+          · refine Or.inr (Or.inl ?_)
+            simp [isMade, recOf, h]
+          · exact Or.inl h
+        · intro c hc m hmade
+          simp at hc
+          subst hc
+          simp at hmade
+          subst hmade
+          simp [getO_setO]
+        · simp [creationClause, recOf, madeOk, hTo, hm, hA, hg']
+        · exact noEuid_of_all (by simp [recOf]) rfl
+        · simp [exportClause, recOf]
+        · simp [askedClause, recOf]
     · simp only [hm, if_false]
       apply stepOK_of
       · constructor
@@ -296,11 +330,6 @@ theorem create_ok {cfg : Cfg} {pol : Policy} {i : Nat} {w : World} {A : Obj} {oi
     (create cfg pol i w A oid name bp).2.2 = true := by
   unfold create
   cases bp <;> simp [h]
-
-theorem guard_or {A : Obj} (h : ¬ (A.oid ≠ masterOid ∧ A.euid = none)) : A.oid = masterOid ∨ A.euid ≠ none := by
-  by_cases hx : A.oid = masterOid
-  · exact Or.inl hx
-  · exact Or.inr (fun hy => h ⟨hx, hy⟩)
 
 theorem load_ok {w : World} (hw : Inv w) {a : Oid} {A : Obj} (hA : getO w.objs a = some A)
     (cfg : Cfg) (pol : Policy) (i : Nat) (p : Path) :
